@@ -2,9 +2,10 @@
 From Coq Require Import List NArith ZArith.
 From PatVerif Require Import Model.Pad Gen.Src.
 Import ListNotations.
-Definition pad_count_src (n : nat) : nat :=
-  match s_t3_pad with
+Ltac t := vm_compute; first [reflexivity | exact I | repeat split; reflexivity].
+Definition pad_count_src (l : list N) (n : nat) : nat :=
+  match l with
   | [a; b; c] => Z.to_nat (Z.of_N a - Z.rem (Z.of_nat n - Z.of_N b) (Z.of_N c))
   | _ => 0%nat end.
-Example tie_pad : forallb (fun n => Nat.eqb (pad_count n) (pad_count_src n)) (seq 0 200) = true. Proof. vm_compute. reflexivity. Qed.
-Example tie_pad_literals : s_t3_pad = [31; 1; 32]%N. Proof. reflexivity. Qed.
+Example tie_pad : tie s_t3_pad (fun l => forallb (fun n => Nat.eqb (pad_count n) (pad_count_src l n)) (seq 0 200) = true). Proof. t. Qed.
+Example tie_pad_literals : tie s_t3_pad (fun l => l = [31; 1; 32]%N). Proof. t. Qed.
